@@ -34,7 +34,7 @@ def resultView (cur : View) : Outcome → View
   | .nochange => cur
   | .ok _ v _ => v
 
-theorem resultView_finish (cur new : View) (d : Desc) (imm : Bool) :
+theorem resultView_finish (cur new : View) (d : Desc) (imm : List Nat) :
     resultView cur (finish cur new d imm) = new := by
   unfold finish
   by_cases h : new = cur
@@ -44,12 +44,13 @@ theorem resultView_finish (cur new : View) (d : Desc) (imm : Bool) :
 /-- **immutable_wc_exception** — a new working-copy commit is reported exactly when an operation is
 created and the restored working-copy commit is immutable; nothing else distinguishes the outcome
 from plain restoration. -/
-theorem exception_iff_immutable (cur new : View) (d d' : Desc) (imm nw : Bool) (v : View)
-    (h : finish cur new d imm = .ok d' v nw) : nw = imm ∧ v = new ∧ d' = d ∧ new ≠ cur := by
+theorem exception_iff_immutable (cur new : View) (d d' : Desc) (imm : List Nat) (nw : Bool) (v : View)
+    (h : finish cur new d imm = .ok d' v nw) :
+    nw = imm.contains new.wc ∧ v = new ∧ d' = d ∧ new ≠ cur := by
   unfold finish at h
   by_cases hn : new = cur
   · simp [hn] at h
-  · simp [hn] at h
+  · simp only [hn, if_false, Outcome.ok.injEq] at h
     exact ⟨h.2.2.symm, h.2.1.symm, h.1.symm, hn⟩
 
 theorem restored_default (r c : View) : RestoredEq (viewWithDesiredPortionsRestored r c defaultWhat) r := by
@@ -73,7 +74,7 @@ theorem getOp_ok {log : OpLog} {i : Nat} {op : Op} (h : getOp log i = .ok op) : 
 tags and working-copy pointers when `repo` is restored (the current ones otherwise), the target's
 remote-tracking portion when `remote-tracking` is restored (the current one otherwise); git refs
 and git heads always stay the current ones. -/
-theorem restore_eq_target (log : OpLog) (head target : Nat) (what : List What) (imm : Bool)
+theorem restore_eq_target (log : OpLog) (head target : Nat) (what : List What) (imm : List Nat)
     (hop top : Op) (hh : log[head]? = some hop) (ht : log[target]? = some top) :
     ∃ o, cmdRestore log head target what imm = .ok o ∧
       (What.repo ∈ what → RepoEq (resultView hop.view o) top.view) ∧
@@ -108,7 +109,7 @@ theorem RestoredEq.symm {a b : View} (h : RestoredEq a b) : RestoredEq b a := by
   exact ⟨⟨a1.symm, b1.symm, c1.symm, d1.symm⟩, e1.symm⟩
 
 /-- what `cmdUndo` computes once the five lookups succeed -/
-theorem cmdUndo_ok {log : OpLog} {head : Nat} {imm : Bool} {hop top pop rop : Op} {p : Nat}
+theorem cmdUndo_ok {log : OpLog} {head : Nat} {imm : List Nat} {hop top pop rop : Op} {p : Nat}
     (hh : log[head]? = some hop) (ht : log[undoTarget hop.desc head]? = some top)
     (hpar : top.parents = [p]) (hp : log[p]? = some pop)
     (hr : log[undoTarget pop.desc p]? = some rop) :
@@ -118,7 +119,7 @@ theorem cmdUndo_ok {log : OpLog} {head : Nat} {imm : Bool} {hop top pop rop : Op
   simp only [cmdUndo, getOp_some hh, getOp_some ht, hpar, singleParent, getOp_some hp, getOp_some hr]
 
 /-- … and conversely: a successful `cmdUndo` went through those lookups -/
-theorem cmdUndo_inv {log : OpLog} {head : Nat} {imm : Bool} {o : Outcome}
+theorem cmdUndo_inv {log : OpLog} {head : Nat} {imm : List Nat} {o : Outcome}
     (h : cmdUndo log head imm = .ok o) :
     ∃ hop top pop rop p, log[head]? = some hop ∧ log[undoTarget hop.desc head]? = some top ∧
       top.parents = [p] ∧ log[p]? = some pop ∧ log[undoTarget pop.desc p]? = some rop ∧
@@ -156,7 +157,7 @@ operation is marked as an undo-operation.  The undone operation is `undoTarget h
 the latest operation, or — when undo is repeated — the operation the previous undo went back to.
 Covers the "jump over earlier undo-operations" rule: when the parent is itself an undo-operation
 the view comes from the operation that one restored, which by `WF` is the same state. -/
-theorem undo_eq_before (log : OpLog) (hwf : WF log) (head : Nat) (imm : Bool) (hop uop pop : Op) (p : Nat)
+theorem undo_eq_before (log : OpLog) (hwf : WF log) (head : Nat) (imm : List Nat) (hop uop pop : Op) (p : Nat)
     (hh : log[head]? = some hop) (hu : log[undoTarget hop.desc head]? = some uop)
     (hpar : uop.parents = [p]) (hp : log[p]? = some pop) :
     ∃ o, cmdUndo log head imm = .ok o ∧
@@ -182,7 +183,7 @@ theorem undo_eq_before (log : OpLog) (hwf : WF log) (head : Nat) (imm : Bool) (h
     exact ⟨_, (exception_iff_immutable _ _ _ _ _ _ _ ho).2.2.1⟩
 
 /-- `jj undo` refuses exactly at the root and at merge operations -/
-theorem undo_errors (log : OpLog) (head : Nat) (imm : Bool) (hop uop : Op)
+theorem undo_errors (log : OpLog) (head : Nat) (imm : List Nat) (hop uop : Op)
     (hh : log[head]? = some hop) (hu : log[undoTarget hop.desc head]? = some uop) :
     (uop.parents = [] → cmdUndo log head imm = .error .root) ∧
     (2 ≤ uop.parents.length → cmdUndo log head imm = .error .merge) := by
@@ -207,9 +208,9 @@ theorem getElem?_append_new (log : OpLog) (u : Op) : (log ++ [u])[log.length]? =
 
 /-- **redo_eq_undone** — `jj undo` followed by `jj redo` reinstates the restored portions of the
 view the undo started from (the undone state), whatever that operation was. -/
-theorem redo_eq_undone (log : OpLog) (hwf : WF log) (head : Nat) (imm : Bool) (hop : Op)
+theorem redo_eq_undone (log : OpLog) (hwf : WF log) (head : Nat) (imm : List Nat) (hop : Op)
     (hh : log[head]? = some hop) (d : Desc) (v : View)
-    (hundo : cmdUndo log head false = .ok (.ok d v false)) :
+    (hundo : cmdUndo log head [] = .ok (.ok d v false)) :
     ∃ o, cmdRedo (log ++ [⟨[head], d, v⟩]) log.length imm = .ok o ∧
       RestoredEq (resultView v o) hop.view ∧
       (∀ d' v' nw, o = .ok d' v' nw → ∃ t, d' = .redo t) := by
@@ -241,13 +242,13 @@ theorem redo_eq_undone (log : OpLog) (hwf : WF log) (head : Nat) (imm : Bool) (h
     exact ⟨_, (exception_iff_immutable _ _ _ _ _ _ _ ho).2.2.1⟩
 
 /-- `jj redo` right after a regular operation has nothing to redo -/
-theorem redo_nothing (log : OpLog) (head : Nat) (imm : Bool) (hop : Op) (hh : log[head]? = some hop)
+theorem redo_nothing (log : OpLog) (head : Nat) (imm : List Nat) (hop : Op) (hh : log[head]? = some hop)
     (hd : hop.desc = .regular) : cmdRedo log head imm = .error .nothingToRedo := by
   simp [cmdRedo, getOp_some hh, hd, redoTarget, isUndo]
 
 /-- logs grown by `jj undo` (without the exception) stay well-formed -/
 theorem wf_append_undo (log : OpLog) (hwf : WF log) (head : Nat) (d : Desc) (v : View)
-    (hundo : cmdUndo log head false = .ok (.ok d v false)) : WF (log ++ [⟨[head], d, v⟩]) := by
+    (hundo : cmdUndo log head [] = .ok (.ok d v false)) : WF (log ++ [⟨[head], d, v⟩]) := by
   obtain ⟨hop, _, pop0, rop, p0, _, _, _, _, hr, hfin⟩ := cmdUndo_inv hundo
   have hx := exception_iff_immutable _ _ _ _ _ _ _ hfin.symm
   have hd : d = .undo (undoTarget pop0.desc p0) := hx.2.2.1
@@ -276,7 +277,7 @@ theorem wf_append_undo (log : OpLog) (hwf : WF log) (head : Nat) (d : Desc) (v :
     · intro t ht; simp at ht
 
 /-- a successful `cmdRedo` went through these lookups -/
-theorem cmdRedo_inv {log : OpLog} {head : Nat} {imm : Bool} {o : Outcome}
+theorem cmdRedo_inv {log : OpLog} {head : Nat} {imm : List Nat} {o : Outcome}
     (h : cmdRedo log head imm = .ok o) :
     ∃ hop top pop rop p, log[head]? = some hop ∧ log[redoTarget hop.desc head]? = some top ∧
       isUndo top.desc = true ∧ top.parents = [p] ∧ log[p]? = some pop ∧
@@ -308,7 +309,7 @@ theorem cmdRedo_inv {log : OpLog} {head : Nat} {imm : Bool} {o : Outcome}
 
 /-- logs grown by `jj redo` (without the exception) stay well-formed -/
 theorem wf_append_redo (log : OpLog) (hwf : WF log) (head : Nat) (d : Desc) (v : View)
-    (hredo : cmdRedo log head false = .ok (.ok d v false)) : WF (log ++ [⟨[head], d, v⟩]) := by
+    (hredo : cmdRedo log head [] = .ok (.ok d v false)) : WF (log ++ [⟨[head], d, v⟩]) := by
   obtain ⟨hop, _, pop0, rop, p0, _, _, _, _, _, hr, hfin⟩ := cmdRedo_inv hredo
   have hx := exception_iff_immutable _ _ _ _ _ _ _ hfin.symm
   have hd : d = .redo (redoTarget pop0.desc p0) := hx.2.2.1
@@ -337,14 +338,14 @@ theorem wf_append_redo (log : OpLog) (hwf : WF log) (head : Nat) (d : Desc) (v :
       exact ⟨rop, getElem?_append_old hr, by rw [hv]; exact restored_default _ _⟩
 
 /-- every portion equal ⇒ equal views -/
-theorem View.ext' {a b : View} (h : RestoredEq a b) (h1 : a.gitRefs = b.gitRefs)
+theorem View.ext_portions {a b : View} (h : RestoredEq a b) (h1 : a.gitRefs = b.gitRefs)
     (h2 : a.gitHeads = b.gitHeads) : a = b := by
   obtain ⟨⟨h3, h4, h5, h6⟩, h7⟩ := h
   cases a; cases b; simp_all
 
 /-- **revert_of_head_eq_undo** — reverting the latest operation (a non-merge, non-root operation
 that is not itself an undo-operation) leaves exactly the view `jj undo` leaves. -/
-theorem revert_of_head_eq_undo (log : OpLog) (hwf : WF log) (head : Nat) (imm : Bool) (hop pop : Op)
+theorem revert_of_head_eq_undo (log : OpLog) (hwf : WF log) (head : Nat) (imm : List Nat) (hop pop : Op)
     (p : Nat) (hh : log[head]? = some hop) (hnu : ∀ t, hop.desc ≠ .undo t) (hpar : hop.parents = [p])
     (hp : log[p]? = some pop) :
     ∃ o o', cmdRevert log head head defaultWhat imm = .ok (some o) ∧ cmdUndo log head imm = .ok o' ∧
@@ -360,7 +361,7 @@ theorem revert_of_head_eq_undo (log : OpLog) (hwf : WF log) (head : Nat) (imm : 
     o', ?_, ho', ?_⟩
   · simp only [cmdRevert, getOp_some hh, hpar, singleParent, getOp_some hp, mergeView, if_true]
   · rw [resultView_finish]
-    apply View.ext'
+    apply View.ext_portions
     · exact (restored_default pop.view hop.view).trans heq.symm
     · rw [hg1]; exact (restored_git _ _ _).1
     · rw [hg2]; exact (restored_git _ _ _).2
@@ -375,15 +376,15 @@ def exampleLog : OpLog :=
   [⟨[], .regular, vw 0⟩, ⟨[0], .regular, vw 1⟩, ⟨[1], .regular, vw 2⟩, ⟨[2], .regular, vw 3⟩,
    ⟨[3], .undo 2, vw 2⟩, ⟨[4], .regular, vw 5⟩, ⟨[5], .undo 2, vw 2⟩]
 
-example : cmdUndo (exampleLog.take 4) 3 false = .ok (.ok (.undo 2) (vw 2) false) := by rfl
-example : cmdUndo (exampleLog.take 6) 5 false = .ok (.ok (.undo 2) (vw 2) false) := by rfl
-example : cmdUndo exampleLog 6 false = .ok (.ok (.undo 1) (vw 1) false) := by rfl
-example : cmdRedo exampleLog 6 false = .ok (.ok (.redo 5) (vw 5) false) := by rfl
-example : cmdRedo (exampleLog.take 6) 5 false = .error .nothingToRedo := by rfl
-example : cmdUndo (exampleLog.take 1) 0 false = .error .root := by rfl
-example : cmdRevert (exampleLog.take 4) 3 3 defaultWhat true = .ok (some (.ok .regular (vw 2) true)) := by rfl
-example : cmdRestore exampleLog 6 3 [.repo] false = .ok (.ok .regular (vw 3) false) := by rfl
-example : cmdRestore exampleLog 6 4 defaultWhat false = .ok .nochange := by rfl
+example : cmdUndo (exampleLog.take 4) 3 [] = .ok (.ok (.undo 2) (vw 2) false) := by rfl
+example : cmdUndo (exampleLog.take 6) 5 [] = .ok (.ok (.undo 2) (vw 2) false) := by rfl
+example : cmdUndo exampleLog 6 [] = .ok (.ok (.undo 1) (vw 1) false) := by rfl
+example : cmdRedo exampleLog 6 [] = .ok (.ok (.redo 5) (vw 5) false) := by rfl
+example : cmdRedo (exampleLog.take 6) 5 [] = .error .nothingToRedo := by rfl
+example : cmdUndo (exampleLog.take 1) 0 [] = .error .root := by rfl
+example : cmdRevert (exampleLog.take 4) 3 3 defaultWhat [2] = .ok (some (.ok .regular (vw 2) true)) := by rfl
+example : cmdRestore exampleLog 6 3 [.repo] [] = .ok (.ok .regular (vw 3) false) := by rfl
+example : cmdRestore exampleLog 6 4 defaultWhat [2] = .ok .nochange := by rfl
 
 example : WF exampleLog := by
   intro i op hi
